@@ -74,6 +74,10 @@ def ncase_term(d) -> str:
 def _code(v) -> int:
     """what the body saw: an int, one of the world's objects (100+idx), or -5 for anything else
     (e.g. the body was run on a query-variable object)"""
+    if isinstance(v, bool):          # the body is type-sensitive: True / False are 11 / 10, not 1 / 0
+        return 10 + int(v)
+    if isinstance(v, float):         # 0.0 / 1.0 / 2.0 are 20 / 21 / 22
+        return 20 + int(v) if v in (0.0, 1.0, 2.0) else -5
     if isinstance(v, int):
         return v
     idx = getattr(v, "idx", None)
@@ -111,7 +115,13 @@ def _run_impl(d) -> Any:
     for o, (_, _, n) in zip(objs, d["objs"]):
         o.n = objs[n]
     def pyval(v):
-        return objs[v - OBJ0] if v >= OBJ0 else v
+        if v >= OBJ0:
+            return objs[v - OBJ0]
+        if v in (10, 11):
+            return bool(v - 10)
+        if v in (20, 21, 22):
+            return float(v - 20)
+        return v
 
     def mk_callee(pred, params, defaults_list, tbl, log, cname, style="dataclass", first=None):
         """style (Predicate subclasses only): 'dataclass' = fields in parameter order; 'handinit' = hand-written __init__ whose
@@ -120,7 +130,7 @@ def _run_impl(d) -> Any:
         defaults = dict((p, v) for p, v in defaults_list)
 
         def pname(p):       # a plain function's first parameter may be NAMED self / cls (first); it is still an ordinary parameter
-            return first if (first and p == 1 and not pred) else _pname(p)
+            return first if (first and p == 1 and (not pred or first == "cls")) else _pname(p)
 
         def body(vals):
             seen = [_code(v) for v in vals]
@@ -182,14 +192,22 @@ def _run_impl(d) -> Any:
                 namespace={"__call__": lambda self: body([getattr(self, pname(p)) for p in params])})
         sig = ", ".join(pname(p) + (f"=_d[{p}]" if p in defaults else "") for p in params)
         ns = {"_body": body, "_d": {p: pyval(v) for p, v in defaults.items()}}
-        exec(f"def {cname.lower()}({sig}):\n    return _body([{', '.join(pname(p) for p in params)}])\n", ns)
+        names = ", ".join(pname(p) for p in params)
+        if style == "partial":       # a callable without __name__: functools.partial over a function with one more leading parameter
+            import functools
+            exec(f"def {cname.lower()}(_bound, {sig}):\n    return _body([{names}])\n", ns)
+            return symbolic_function(functools.partial(ns[cname.lower()], 7))
+        if style == "callobj":       # a callable without __name__: an instance with __call__
+            exec(f"class {cname}Obj:\n    def __call__(_me, {sig}):\n        return _body([{names}])\n", ns)
+            return symbolic_function(ns[cname + "Obj"]())
+        exec(f"def {cname.lower()}({sig}):\n    return _body([{names}])\n", ns)
         return symbolic_function(ns[cname.lower()])
 
     log: List[List[int]] = []
     first = d.get("first_name")
 
     def pname(p):
-        return first if (first and p == 1 and not d["pred"]) else _pname(p)
+        return first if (first and p == 1 and (not d["pred"] or first == "cls")) else _pname(p)
 
     callee = mk_callee(d["pred"], d["params"], d["defaults"], d["tbl"], log, "Pr" if d["pred"] else "Fn", d.get("style", "dataclass"), first)
 
@@ -336,7 +354,16 @@ def sym_arg(rng: core.Rng, x: int):
 
 
 def lit_arg(rng: core.Rng, nobj: int):
-    return ["lit", rng.randint(0, 2)] if rng.chance(0.8) else ["lit", OBJ0 + rng.randint(0, nobj - 1)]
+    """an ordinary object: an int 0..2, a bool (10 / 11), a float 0.0..2.0 (20..22) -- equal across types in Python, distinct for the
+    type-sensitive body -- or one of the world's objects"""
+    r = rng.randint(0, 9)
+    if r < 5:
+        return ["lit", rng.randint(0, 2)]
+    if r < 7:
+        return ["lit", 10 + rng.randint(0, 1)]
+    if r < 8:
+        return ["lit", 20 + rng.randint(0, 2)]
+    return ["lit", OBJ0 + rng.randint(0, nobj - 1)]
 
 
 def call_shapes(n: int, ndef: int):
@@ -421,7 +448,12 @@ def styled(rng: core.Rng, d: dict) -> dict:
         r = rng.randint(0, 9)
         if r >= 7:
             d["first_name"] = "self" if r < 9 else "cls"
+        r = rng.randint(0, 9)
+        if r >= 8:
+            d["style"] = "partial" if r == 8 else "callobj"      # callables without __name__
         return d
+    if rng.randint(0, 9) == 0:
+        d["first_name"] = "cls"          # a field may be called cls
     r = rng.randint(0, 9)
     n = len(d["params"])
     if r == 4:
@@ -628,6 +660,21 @@ def gen_malformed(tier: str, seed: int) -> List[dict]:
 
 
 # ------------------------------------------------------------------ known findings
+ATTRIBUTE_ERROR = [99, sum(map(ord, "AttributeError"))]
+
+
+def known_defect(d: dict, impl) -> Any:
+    """narrow class rules of the listed OPEN findings: decidable input class AND exactly the recorded wrong behaviour"""
+    written = d["pos"] + [a for _, a in d["kw"]] + ([["var", 0]] if d.get("inner") else [])
+    symbolic = any(a[0] != "lit" for a in written)
+    if (not d["pred"] and d.get("style") in ("partial", "callobj") and symbolic and impl == ATTRIBUTE_ERROR):
+        return "K_callable_without_name"       # C12-d: AttributeError ... has no attribute '__name__' when the condition is built
+    if (d["pred"] and d.get("first_name") == "cls" and (symbolic or any(k == 1 for k, _ in d["kw"]))
+            and impl[:2] in ([1, -1], [0, -1]) and not any(isinstance(x, list) and x for x in impl[2:])):
+        return "K_field_named_cls"             # C12-e: TypeError ... got multiple values for argument 'cls'
+    return None
+
+
 def replay_finding(rep: Report, f: core.Finding, model_ok: bool):
     w = json.loads((core.VERIF / f.witness).read_text())
     entries = w["cases"] if "cases" in w else [w]
@@ -653,6 +700,8 @@ def replay_finding(rep: Report, f: core.Finding, model_ok: bool):
         # open finding: still failing, in its class, exactly as the faithful model predicts (and as recorded)?
         if (code == 2 or (not model_ok and code == 3)) and impl == e["expected_impl"]:
             still += 1
+        elif code % 100 != 0 and known_defect(d, impl) == f.cls and impl == e["expected_impl"]:
+            still += 1      # a class whose recorded wrong behaviour is an exception, not a reading of the model
         elif code % 100 in (0, 1):      # impl = spec (1: the faithful model still predicts the old, wrong outcome)
             gone += 1
         else:
@@ -746,6 +795,8 @@ def run(tier: str, seed: int, replay=None) -> int:
                             "with_positional": 0, "with_keyword": 0, "with_default_omitted": 0, "with_prebound": 0,
                             }
     bad = []
+    open_classes = {f.cls for f in core.load_findings(PROP) if f.kind == "open"}
+    kf_instances: Dict[str, int] = {}
     for c, code in zip(cases, codes):
         d = c.descr
         cls, k = divmod(code, 100)
@@ -763,6 +814,10 @@ def run(tier: str, seed: int, replay=None) -> int:
         dist["with_default_omitted"] += len(d["pos"]) + len(d["kw"]) < len(d["params"])
         dist["with_prebound"] += bool(d["pre"])
         if k == 0:
+            continue
+        kd = known_defect(d, c.impl)
+        if kd in open_classes:
+            kf_instances[kd] = kf_instances.get(kd, 0) + 1
             continue
         if k in (1, 4) and cls == 0:
             rep.oblige("correspondence:model", False, f"model differs from impl (=spec) on {c.key[:300]}")
@@ -793,6 +848,10 @@ def run(tier: str, seed: int, replay=None) -> int:
         ovars = {v for a in d["pos"] + [a for _, a in d["kw"]] for v in arg_vars(a)} - {NEST}
         dist["nested_shares_variable_with_outer"] += bool(ivars & ovars)
         if code != 0:
+            kd = known_defect(c.descr, c.impl)
+            if kd in open_classes:
+                kf_instances[kd] = kf_instances.get(kd, 0) + 1
+                continue
             nbad.append((c, code))
     nbad.sort(key=lambda cc: len(cc[0].key))
     for c, code in nbad[:3]:
@@ -814,6 +873,10 @@ def run(tier: str, seed: int, replay=None) -> int:
         rep.count(c.key, ok_shape and len(c.impl[3]) > 1)
         dist["selected_call_falsy_result_on_a_row"] += ok_shape and any(r[-1] == 0 for r in c.impl[3])
         if code != 0:
+            kd = known_defect(c.descr, c.impl)
+            if kd in open_classes:
+                kf_instances[kd] = kf_instances.get(kd, 0) + 1
+                continue
             sbad.append((c, code))
     sbad.sort(key=lambda cc: len(cc[0].key))
     for c, code in sbad[:3]:
@@ -835,6 +898,10 @@ def run(tier: str, seed: int, replay=None) -> int:
         for c, code in zip(xs, xcodes):
             rep.count(c.key, c.impl[0] == 1 and bool(c.impl[-1]))
             if code != 0:
+                kd = known_defect(c.descr, c.impl)
+                if kd in open_classes:
+                    kf_instances[kd] = kf_instances.get(kd, 0) + 1
+                    continue
                 xbad.append((c, code))
         xbad.sort(key=lambda cc: len(cc[0].key))
         for c, code in xbad[:3]:
@@ -844,6 +911,7 @@ def run(tier: str, seed: int, replay=None) -> int:
                                            "for EVERY value of u. " if label == "quant" else
                                            "call as comparison operand (class 6): case['operand'] = [op (0 ==, 1 <, 2 !=), k]; outcome [1, err, calls, rows]; Spec = "
                                            "the comparison holds for the call's plain result. ") + EXPLAIN})
+    dist["known_finding_instances"] = kf_instances
     dist["predicate_styles"] = {st: sum(1 for c in cases if c.descr.get("style", "dataclass") == st and c.descr["pred"]) for st in ("dataclass", "handinit", "kwbase", "postinit", "cached", "initvar")}
     dist["function_first_parameter_named_self_or_cls"] = sum(1 for c in cases if c.descr.get("first_name"))
     rep.extra["distribution"] = dist
